@@ -293,4 +293,5 @@ def repr_tree(x, np):
 
 
 if __name__ == "__main__":
-    main()
+    import common
+    common.run(main, PID)
